@@ -239,6 +239,21 @@ func c05Edits(src string) []c05Edit {
 			c05Edit{"type mismatch", insertBefore(i, "zq:num", "zq = [1]", "print zq")},
 			c05Edit{"type mismatch", insertBefore(i, "zq := [1]", "zq[0] = \"s\"", "print zq")},
 			c05Edit{"type mismatch", insertBefore(i, "zq := {a:1}", "zq.b = true", "print zq")},
+			c05Edit{"type mismatch", insertBefore(i, "for zi := range \"a\" 3", "    print zi", "end")},
+			c05Edit{"type mismatch", insertBefore(i, "for zi := range 1 true", "    print zi", "end")},
+			c05Edit{"type mismatch", insertBefore(i, "print (min (cls) 1)")},
+			c05Edit{"type mismatch", insertBefore(i, "print (max 1 (cls))")},
+			c05Edit{"type mismatch", insertBefore(i, "zq := [(cls)]", "print zq")},
+			c05Edit{"type mismatch", insertBefore(i, "zq := {a:1 b:(cls)}", "print zq")},
+			c05Edit{"type mismatch", insertBefore(i, "zq := (cls)", "print zq")},
+			c05Edit{"type mismatch", insertBefore(i, "zq:any", "zq = (cls)", "print zq")},
+			c05Edit{"redeclaration in the same scope", insertBefore(i, "err := true", "print err")},
+			c05Edit{"redeclaration in the same scope", insertBefore(i, "errmsg := \"x\"", "print errmsg")},
+			c05Edit{"redeclaration in the same scope", insertBefore(i, "zq := 1", "print zq", "zq:num", "print zq")},
+			c05Edit{"wrong number of arguments", insertBefore(i, "for zi := range 1 2 3 4", "    print zi", "end")},
+			c05Edit{"wrong number of arguments", insertBefore(i, "print (min 1)")},
+			c05Edit{"wrong number of arguments", insertBefore(i, "print (min 1 2 3)")},
+			c05Edit{"wrong number of arguments", insertBefore(i, "cls 1")},
 			c05Edit{"wrong number of arguments", insertBefore(i, "print (len 1 2)")},
 			c05Edit{"unknown function", insertBefore(i, "zqf 1")},
 			c05Edit{"stray text after a statement", insertBefore(i, "zq := 1 )", "print zq")},
@@ -449,7 +464,7 @@ func RunC05(d *Driver) *Report {
 	if berr != nil {
 		r.Disagree(Case{Stream: "build", Input: "go build", Real: berr.Error()})
 	}
-	r.Rule = fmt.Sprintf("termination analysis: alwaysTerminates of every statement of %d accepted programs (%d constructed function bodies with every combination of returning / non-returning if, else-if, else branches, loops, nesting, comments and blank lines; generated programs; documentation examples) compared with Model/Static.lean; the hypotheses of typed_function_returns_a_value (terminates, breaks only in loops, returns carry values) evaluated by the model on each of the %d accepted typed functions; and for each constructed body exactly one of {body alone, body + return} must be accepted, as the analysis says. Rule-breaking edits: %d programs = 2 rich valid programs x every line position x 37 edits of 11 kinds (unused / undeclared variable, redeclaration, type mismatch, argument count, unknown function, stray text after a statement and after end, break outside a loop, value returned from handler / procedure / top level) + 120 constructed programs for block scoping (use after the block, in a sibling branch of every if chain position, in another function or handler, before the declaration), event handler parameter lists (every wrong type and count for every event), redeclared functions / handlers / parameters, argument and return types + unreachable code after every return / break (directly and after comment + blank line) + missing return; each must be rejected with a located error, produce no platform call and no output through the library entry point, and (%d of them) exit non-zero with empty stdout and errors on stderr through the rebuilt `evy run`. Non-trivial = distinct program", nterm, nfn, len(bodies), nedit, nbin)
+	r.Rule = fmt.Sprintf("termination analysis: alwaysTerminates of every statement of %d accepted programs (%d constructed function bodies with every combination of returning / non-returning if, else-if, else branches, loops, nesting, comments and blank lines; generated programs; documentation examples) compared with Model/Static.lean; the hypotheses of typed_function_returns_a_value (terminates, breaks only in loops, returns carry values) evaluated by the model on each of the %d accepted typed functions; and for each constructed body exactly one of {body alone, body + return} must be accepted, as the analysis says. Rule-breaking edits: %d programs = 2 rich valid programs x every line position x 52 edits of 11 kinds (unused / undeclared variable, redeclaration, type mismatch, argument count, unknown function, stray text after a statement and after end, break outside a loop, value returned from handler / procedure / top level) + 120 constructed programs for block scoping (use after the block, in a sibling branch of every if chain position, in another function or handler, before the declaration), event handler parameter lists (every wrong type and count for every event), redeclared functions / handlers / parameters, argument and return types + unreachable code after every return / break (directly and after comment + blank line) + missing return; each must be rejected with a located error, produce no platform call and no output through the library entry point, and (%d of them) exit non-zero with empty stdout and errors on stderr through the rebuilt `evy run`. Non-trivial = distinct program", nterm, nfn, len(bodies), nedit, nbin)
 	r.DriverCalls = d.N
 	return r
 }
@@ -530,6 +545,9 @@ func c05ScopeEdits() []c05Edit {
 	}
 	add("unknown function (unknown event)", "print 1\non zqev\n    print 2\nend\n")
 	add("redeclaration in the same scope (two handlers for one event)", "print 1\non key\n    print 2\nend\non key\n    print 3\nend\n")
+	add("redeclaration in the same scope (a function named like a builtin variable)", "func err\n    print 2\nend\nprint 1\n")
+	add("redeclaration in the same scope (a function named like a builtin function)", "func len:num a:any\n    return 1\nend\nprint (len 1)\n")
+	add("redeclaration in the same scope (a parameter named like a builtin variable)", "func f errmsg:string\n    print errmsg\nend\nf \"a\"\n")
 	add("redeclaration in the same scope (two functions of one name)", "print 1\nfunc f\n    print 2\nend\nfunc f\n    print 3\nend\nf\n")
 	add("redeclaration in the same scope (parameter names)", "func f a:num a:num\n    print a\nend\nf 1 2\n")
 	add("redeclaration in the same scope (parameter and local)", "func f a:num\n    a := 2\n    print a\nend\nf 1\n")
